@@ -454,7 +454,11 @@ func Drive(run *common.Run, prop string, b Budget) {
 	rootRand := common.NewRand(binary.LittleEndian.Uint64(h[:8]))
 	selfTested := map[uint64]bool{}
 	var lastRes *Result
+	confirmedHangs, stopped := 0, false
 	one := func(c *Case) {
+		if stopped {
+			return
+		}
 		id := run.NewID()
 		if js, err := json.Marshal(c); err == nil {
 			os.WriteFile(currentCasePath(run.Dir), js, 0o644)
@@ -568,6 +572,11 @@ func Drive(run *common.Run, prop string, b Budget) {
 				res = res2
 			} else {
 				oracle(run, id, res)
+				// a wedge is reported with its replay; two confirmed ones end the run (every further case of the
+				// kind would cost two watchdog periods): no check may take hours because the code deadlocks
+				if confirmedHangs++; confirmedHangs >= 2 {
+					stopped = true
+				}
 				return
 			}
 		}
@@ -736,6 +745,9 @@ func Drive(run *common.Run, prop string, b Budget) {
 	}
 	os.Remove(currentCasePath(run.Dir))
 
+	if stopped {
+		return // ended early after confirmed wedges (reported as oracle failures): the floors do not apply
+	}
 	// coverage floors: a run whose streams did not reach the situations they exist for must not pass silently
 	// (reported as a harness failure = layer R, not as a property violation)
 	floor := func(what string, got, want int) {
